@@ -18,7 +18,7 @@ EXPLANATION = (
 )
 RULE = "one case = one (typestate, client call, oracle resolution) transition; distinct = reachable typestates"
 EXHAUSTIVE = True
-OWNED = {"C02.M1", "C02.T1", "C02.T2", "C02.T3", "CRASH"}
+OWNED = {"C02.M1", "C02.T1", "C02.T2", "C02.T3", "C02.T5", "CRASH"}
 
 
 def check(ctx):
@@ -27,8 +27,9 @@ def check(ctx):
     ctx.rule("C02.M1", "no engine transition/finish caused by a time comparison while the current state is entered-but-not-run")
     ctx.rule("C02.T2", "entered by expiry: state_tm = tm - expiry(predecessor); after an initial call: expiry(S) = entry(S) + current value of <S>_duration")
     ctx.rule("C02.T3", "entry time and expiry of a state are rewritten only by an initial call of that state")
+    ctx.rule("C02.T5", "the machine start instant is re-based only in iterations whose state calls are all initial calls (premise of state_tm >= 0 and of 'every repetition lasts as long as the first')")
     ctx.rule("C02.T4", "<state>_duration is created by the decorator as tunable(duration, writeDefault=False, subtable='state') under the name the engine reads")
-    res = smcommon.run_universes(ctx, "StateMachine")
+    res = smcommon.run_universes(ctx, "StateMachine", owned=OWNED)
     ctx.floor("universes", len(res), 4)
     ctx.floor("state function calls with timing checked", sum(r["timing_checked"] for r in res), 10000)
     smcommon.report(ctx, res, OWNED)
